@@ -598,7 +598,11 @@ func (w *World) SrcRecv(fd *ast.FuncDecl, n ast.Node) string {
 		return s
 	}
 	name := fd.Recv.List[0].Names[0].Name
-	re := regexp.MustCompile(`\b` + regexp.QuoteMeta(name) + `\.`)
+	re := recvRe[name]
+	if re == nil {
+		re = regexp.MustCompile(`\b` + regexp.QuoteMeta(name) + `\.`)
+		recvRe[name] = re
+	}
 	return re.ReplaceAllString(s, "recv.")
 }
 
@@ -619,3 +623,5 @@ func gtExpr(e ast.Expr) (*ast.BinaryExpr, bool) {
 	}
 	return b, true
 }
+
+var recvRe = map[string]*regexp.Regexp{}
